@@ -19,5 +19,5 @@ def run(tier, seed):
     ff_cases(chk, rng, 24 if tier == 'quick' else 800, (None, 'ideal', 'real'))
     nor = 16 if (tier == 'quick' and not chk.broken) else (48 if tier == 'quick' else 960)
     run_oracle(chk, rng, nor, 'ff.c01_oracle', 'c01-oracle', (None, None, 'ideal', 'ideal', 'real'),
-               probes=[os.path.join(ROOT, 'probes', f) for f in ('C01-exact-kernel.json', 'C01-radius-step.json', 'C01-stepped-ground.json', 'C01-topdown-grounded-load.json', 'C01-topdown-sloper-load.json')])
+               probes=[os.path.join(ROOT, 'probes', f) for f in ('C01-exact-kernel.json', 'C01-radius-step.json', 'C01-stepped-ground.json', 'C01-topdown-grounded-load.json', 'C01-topdown-sloper-load.json', 'C01-long-sloper-topdown.json', 'C01-long-sloper-topdown-loaded.json')])
     return chk.finish()
